@@ -201,8 +201,8 @@ def checkBatch (i : Inp) (pre : Store) (b : Batch) (impl : String) : Option Stor
     if selOk && txOk then some post else none
   | _ => none
 
-/-- unparsable arguments (e.g. produced by the runner's shrinking of a structured argument) carry no property claim -/
-def badArgs : Verdict := ⟨"BADARGS", true, "badargs"⟩
+/-- unparsable arguments (the runner rejects BADARGS candidates when it shrinks a structured argument) -/
+def badArgs : Verdict := ⟨"BADARGS", false, "badargs"⟩
 
 def handle (op : String) (args : List String) (impl : String) : Option Verdict :=
   match op, args with
@@ -236,10 +236,18 @@ def handle (op : String) (args : List String) (impl : String) : Option Verdict :
     let some b := i2.utxos | return badArgs
     if !decide (a.Perm b) then return badArgs
     let sh (i : Inp) : String := match rawTx { i with utxos := i.utxos.map sortUtxos } with | none => "err" | some tx => showTx tx
+    -- both listings give the same answer, and that answer is a transaction satisfying P16 for the ordered UTXO set — or a
+    -- refusal where the model refuses too (so `err#err` passes only if no transaction is due)
+    let is1 := { i1 with utxos := i1.utxos.map sortUtxos }
     let ok := match impl.splitOn "#" with
-      | [t1, t2] => t1 == t2
+      | [t1, t2] =>
+        t1 == t2 &&
+        (if t1 = "err" then (rawTx is1).isNone
+         else match parseTx (is1.utxos.getD []) t1 with
+           | some t => decide (P16 is1 (some t))
+           | none => false)
       | _ => false
-    let kind := if (rawTx { i1 with utxos := i1.utxos.map sortUtxos }).isSome then "tx" else "err"
+    let kind := if (rawTx is1).isSome then "tx" else "err"
     return ⟨sh i1 ++ "#" ++ sh i2, ok, s!"buildperm:{kind}:{utxoTag a}"⟩
   | "fee", [rate, i, o] => some <| Id.run do
     let some i := i.toNat? | return badArgs
